@@ -380,6 +380,9 @@ def template_shape(fm, ctx, depth=0):
 SINKS = {"self", "self.src", "self.interface", "self.interface.src"}
 
 
+CTX_OF = {}  # id(hole expression node) -> Ctx in which it is evaluated
+
+
 class Emitter:
     """Linearise what a generator function writes to its source sink.
 
@@ -442,7 +445,9 @@ class Emitter:
                 return self.arg_items(a, c2, depth + 1)
         sh = classify(e, ctx)
         if not is_identlike(sh) and any(self.roots_to(x, ctx, self.operands) for x in synq.walk(e) if x.get("k") == "path"):
+            CTX_OF[id(e)] = ctx
             return [("atom", [(CODE, "operands")], e)]
+        CTX_OF[id(e)] = ctx
         return [("atom", sh, e)]
 
     def fmt_items(self, fm, ctx):
@@ -540,15 +545,26 @@ TWO = {"=>", "::", "==", "!=", "<=", ">=", "->", "&&", "||", ".."}
 def tokenize(items):
     toks = []
     cur = []  # shape under construction
+    src = []  # hole expressions merged into the word under construction
+    st = {"instr": False}  # inside a string literal of the generated code (may span holes)
 
     def flush():
         if cur:
-            toks.append(("word", list(cur), None))
+            toks.append(("word", list(cur), list(src)))
             cur.clear()
+            src.clear()
 
     def lit(text):
         i = 0
         n = len(text)
+        if st["instr"]:
+            while i < n and text[i] != '"':
+                i += 2 if text[i] == "\\" else 1
+            if i >= n:
+                return
+            st["instr"] = False
+            toks.append(("str", "", None))
+            i += 1
         while i < n:
             c = text[i]
             if c.isalnum() or c == "_":
@@ -573,6 +589,9 @@ def tokenize(items):
                 j = i + 1
                 while j < n and text[j] != '"':
                     j += 2 if text[j] == "\\" else 1
+                if j >= n:
+                    st["instr"] = True  # the literal continues after a hole
+                    return
                 toks.append(("str", text[i + 1:j], None))
                 i = j + 1
                 continue
@@ -588,7 +607,11 @@ def tokenize(items):
             if it[0] == "lit":
                 lit(it[1])
             elif it[0] == "atom":
+                if st["instr"]:
+                    continue
                 if is_identlike(it[1]):
+                    if it[2] is not None:
+                        src.append(it[2])
                     for a in it[1]:
                         if a[0] == "lit" and cur and cur[-1][0] == "lit":
                             cur[-1] = ("lit", cur[-1][1] + a[1])
@@ -951,6 +974,7 @@ def run(rep, tier):
     rep.guard("R9.2", "operand roots", lambda: r92_roots(rep, state))
     rep.guard("R9.3", "export halves", lambda: r93(rep))
     rep.guard("R9.4", "prelude names", lambda: r94(rep, state))
+    rep.guard("R9.5", "per-iteration items", lambda: r95(rep))
 
 
 # ------------------------------------------------------------------------------------------------ R9.1
@@ -1564,6 +1588,132 @@ def r93(rep):
     asg = [n for n in synq.walk(mc.body) if n.get("k") == "assign" and n["l"].get("k") == "field" and
            n["l"]["member"] == "export_prefix"]
     rep.ob("R9.3", "the macro forwards `export_prefix` to the generator options", len(asg) == 1, "", mc.loc())
+
+
+# ------------------------------------------------------------------------------------------------ R9.5
+def gen_loops(f):
+    """(pattern nodes, body, node) of every `for` loop and every closure handed to `for_each`"""
+    out = []
+    for n in synq.walk(f.body):
+        if n.get("k") == "for":
+            out.append(([n["pat"]], n["body"], n))
+        elif n.get("k") == "mcall" and n["method"] == "for_each" and n["args"] and n["args"][0].get("k") == "closure":
+            c = n["args"][0]
+            out.append((c.get("params", []), c["body"], c))
+    return out
+
+
+def depends_on_loop(e, ctx, f, loop, depth=0):
+    """does the expression (through let-bound locals and inlined call arguments) mention a variable bound by the
+    loop, by a loop nested in it, or a fresh counter (`self.tmp()`)?"""
+    if e is None or depth > 10:
+        return False
+    pats, body, node = loop
+    for x in synq.walk(e):
+        if x.get("k") == "mcall" and x["method"] == "tmp" and render(x["recv"]) == "self":
+            return True
+        if x.get("k") != "path" or "::" in x["path"]:
+            continue
+        name = x["path"]
+        if ctx.fn is f and contains(body, start(x)) or ctx.fn is f and any(contains(p, start(x)) for p in pats):
+            r = resolve_name(f, name, start(x))
+        elif ctx.fn is not None and ctx.fn is not f:
+            r = resolve_name(ctx.fn, name, start(x))
+        else:
+            r = resolve_name(f, name, start(x)) if ctx.fn is f else None
+        if r is None or r[0] == "param":
+            if name in ctx.env:
+                a, c2 = ctx.env[name]
+                if depends_on_loop(a, c2, f, loop, depth + 1):
+                    return True
+            continue
+        if r[0] == "let":
+            init = r[1].get("init")
+            if ctx.fn is f and not contains(body, start(r[1])):
+                continue  # bound outside the loop: the same for every iteration
+            if init is not None and depends_on_loop(init, ctx, f, loop, depth + 1):
+                return True
+        elif r[0] in ("for", "closure", "arm", "iflet"):
+            bn = r[1]
+            if ctx.fn is not f:
+                # a pattern variable of the callee: follow what it destructures
+                src = bn.get("iter") if r[0] == "for" else None
+                if src is not None and depends_on_loop(src, ctx, f, loop, depth + 1):
+                    return True
+                continue
+            if bn is node or contains(body, start(bn)):
+                if r[0] in ("for", "closure"):
+                    return True
+                src = bn["cond"]["e"] if r[0] == "iflet" else None
+                if src is not None and depends_on_loop(src, ctx, f, loop, depth + 1):
+                    return True
+                if r[0] == "arm":
+                    for mnode in synq.walk(body):
+                        if mnode.get("k") == "match" and any(a is bn for a in mnode.get("arms", [])):
+                            if depends_on_loop(mnode["scrut"], ctx, f, loop, depth + 1):
+                                return True
+    return False
+
+
+def r95(rep):
+    """A generator loop that writes Rust item definitions: each item written per iteration is named after the loop
+    element or sits inside a scope the same iteration opens."""
+    nloops = 0
+    nitems = 0
+    fams = {}
+    for rel, tys in ((IFACE, None), (BG, None)):
+        for f in synq.all_fns(rel):
+            if f.body is None:
+                continue
+            for loop in gen_loops(f):
+                pats, body, node = loop
+                em = Emitter(f.self_ty, rel, inline=True)
+                em.stack = [f.name]
+                out = dict(stmt=[], exprs=[], decls=[])
+                em.collect(body, Ctx(f), out)
+                if not out["stmt"]:
+                    continue
+                binders, toks, _ = scan(out["stmt"])
+                items = [b for b in binders if b.kind == "item"]
+                if not items:
+                    continue
+                nloops += 1
+                rep.saw(f"{rel}::{f.name}")
+                for b in items:
+                    nitems += 1
+                    j = b.index + 1
+                    while j < len(toks) and toks[j][0] in MARK:
+                        j += 1
+                    kw = word_text(toks[b.index]) or "item"
+                    if kw == "use":
+                        # the bound name is the last word of the statement
+                        nm = None
+                        for t in toks[b.index + 1:b.stmt_end if b.stmt_end else len(toks)]:
+                            if t[0] in ("word", "code"):
+                                nm = t
+                    else:
+                        nm = toks[j] if j < len(toks) else None
+                    exprs = []
+                    if nm is not None and nm[0] == "word":
+                        exprs = list(nm[2] or [])
+                    elif nm is not None and nm[0] == "code" and nm[2] is not None:
+                        exprs = [nm[2]]
+                    dep = any(a[0] == "ctr" for a in b.shape) or \
+                        any(depends_on_loop(e, CTX_OF.get(id(e), Ctx(f)), f, loop) for e in exprs)
+                    enclosed = b.depth > 0
+                    ok = dep or enclosed
+                    why = ("named after the loop element" if dep else
+                           f"inside a scope opened by the same iteration (depth {b.depth})" if enclosed else
+                           f"`{kw} {b.name}` has the same name in every iteration and is written directly into the scope "
+                           f"all iterations share: two elements define it twice (E0428)")
+                    d = fams.setdefault((f.name, kw, b.name), dict(ok=True, why=why, loc=f.loc(node)))
+                    if not ok:
+                        d.update(ok=False, why=why, loc=f.loc(node))
+    rep.floor("R9.5", "generator loops that write Rust items", nloops, 18)
+    rep.floor("R9.5", "items written per iteration", nitems, 46)
+    for (fn_, kw, name), d in sorted(fams.items()):
+        rep.ob("R9.5", f"{fn_}: per-iteration item `{kw} {name}` is element-named or enclosed in a scope of its iteration",
+               d["ok"], d["why"], d["loc"])
 
 
 # ------------------------------------------------------------------------------------------------ R9.4
